@@ -46,75 +46,66 @@ def run(ck: Checker, prog: Program, tier: str):
 
 
 def _statistics(ck: Checker, prog: Program):
+    """_statistics by value: the accumulation loops are summarised as sums over (row, normalised weight) pairs, and the pair
+    returned is compared with the weighted mean / weighted standard deviation written with the same constructors."""
+    from ..pathtable import PathTable
     f = prog.func("hvsr_spatial._statistics")
     q = f.qualname
-    first = [st for st in f.node.body if isinstance(st, ast.Assign)][0]
-    T = Translator()
-    w = T.sym("weights")
-    nw_name = unparse(first.targets[0])
-    if equal(T.tr(first.value), w / sp.Function("sum")(w)):
-        ck.ok("C14.R1", q, norm_key(first), detail="weights normalised to unit sum first")
+    if f.params[:2] != ["values", "weights"]:
+        raise AnalysisError(f"{q}: parameters are {f.params}")
+    leaves = [l for l in PathTable(prog, f.module, sum_loops=True).leaves(f.node.body) if l.exit == "return"]
+    if len(leaves) != 1 or not isinstance(leaves[0].value, sp.Tuple) or len(leaves[0].value) != 2:
+        raise AnalysisError(f"{q}: expected one returning path with a pair")
+    got_mean, got_std = leaves[0].value
+    R_ = lambda n: sp.Symbol(n, real=True)   # noqa: E731
+    V, Wraw = R_("values"), R_("weights")
+    F = sp.Function
+    SUM, Sum, item, last, LEN = F("sum"), F("Sum"), F("item"), F("last"), F("len")
+    fn = lambda e: getattr(getattr(e, "func", None), "__name__", "")   # noqa: E731
+    known = {"sum", "Sum", "item", "last", "len", "zip", "shape", "getitem", "attr_shape", "attr_size"}
+    foreign = sorted({fn(a_) for a_ in sp.preorder_traversal(sp.Tuple(got_mean, got_std)) if fn(a_) and isinstance(a_, sp.core.function.AppliedUndef)} - known)
+    # ---- R1: the weights enter only through their normalised form
+    NW = Wraw / SUM(Wraw)
+    marker = R_("<normalised weights>")
+    probe = sp.Tuple(got_mean, got_std).xreplace({NW: marker}) if hasattr(sp.Tuple(got_mean, got_std), "xreplace") else None
+    probe = sp.Tuple(got_mean, got_std).subs(NW, marker)
+    if not probe.has(marker):
+        ck.violation("C14.R1", q, "weight normalisation", "the weights are not normalised to unit sum before use", loc=f.loc())
+    elif probe.has(Wraw):
+        ck.violation("C14.R1", q, "raw weights used", "the raw (un-normalised) weights are used: the statistics would change when all weights are multiplied by a constant", loc=f.loc())
     else:
-        ck.violation("C14.R1", q, norm_key(first), "the weights are not normalised to unit sum before use", loc=f.loc(first))
-    raw_uses = [n for n in own_nodes(f.node) if isinstance(n, ast.Name) and n.id == "weights" and isinstance(n.ctx, ast.Load)
-                and not any(x is n for x in ast.walk(first))]
-    if not raw_uses:
+        ck.ok("C14.R1", q, "weights normalised to unit sum first")
         ck.ok("C14.R1", q, "raw weights are not read again")
-    for n in raw_uses:
-        st = n
-        while not isinstance(st, ast.stmt):
-            st = parent_of(st)
-        ck.violation("C14.R1", q, norm_key(st), "the raw (un-normalised) weights are used here: the statistics would change when all weights are multiplied by a constant",
-                     loc=f.loc(n))
-    loops = [st for st in f.node.body if isinstance(st, ast.For)]
-    if len(loops) != 2:
-        raise AnalysisError(f"{q}: expected two accumulator loops")
-    for lp in loops:
-        if unparse(lp.iter) != f"zip(values, {nw_name})" or any(isinstance(x, (ast.Break, ast.Continue, ast.If)) for x in ast.walk(lp)):
-            ck.violation("C14.R2", q, norm_key(lp), f"the accumulator loop does not pair every row of values with its normalised weight (zip(values, {nw_name}))", loc=f.loc(lp))
-    row, wt = [unparse(e) for e in loops[0].target.elts]
-    TT = Translator()
-    R, Wt, MEAN = TT.sym(row), TT.sym(wt), TT.sym("mean")
-    SUM = sp.Function("sum")
-    inc = {}
-    for lp in loops:
-        TL = Translator()
-        forward_substitute([st for st in lp.body if isinstance(st, ast.Assign)], TL)
-        for st in lp.body:
-            if isinstance(st, ast.AugAssign) and isinstance(st.op, ast.Add):
-                inc[unparse(st.target)] = TL.tr(st.value)
-    want = {"mean": Wt * SUM(R), "numerator": Wt * SUM((R - MEAN) ** 2), "w2": SUM(Wt * Wt)}
-    alt = {"w2": Wt * Wt}
-    for k, wv in want.items():
-        g = inc.get(k)
-        if g is not None and (equal(g, wv) or (k in alt and equal(g, alt[k]))):
-            ck.ok("C14.R2", q, f"{k} += {wv}")
-        else:
-            ck.violation("C14.R2", q, f"accumulator {k}", f"`{k}` accumulates {g}; expected {wv} per generating location", loc=f.loc())
-    # initial values and post-scaling
-    inits = {unparse(st.targets[0]): unparse(st.value) for st in f.node.body if isinstance(st, ast.Assign) and unparse(st.targets[0]) in want}
-    post = {unparse(st.target): unparse(st.value) for st in f.node.body if isinstance(st, ast.AugAssign) and isinstance(st.op, ast.Div)}
-    if inits == {"mean": "0", "numerator": "0", "w2": "0"} and post == {"mean": f"len({row})", "numerator": f"len({row})", "w2": f"len({row})"}:
+    # ---- R2: the estimators
+    SEQ = F("zip")(V, NW)
+    b0 = R_("_sum0")
+    ROW, WT = item(b0, sp.Integer(0)), item(b0, sp.Integer(1))
+    ns = [LEN(item(last(SEQ), sp.Integer(0)))]
+    ok_mean = ok_std = False
+    want_mean = want_std = None
+    for n_ in ns:
+        want_mean = Sum(WT * SUM(ROW), SEQ) / n_
+        if equal(got_mean, want_mean):
+            ok_mean = True
+            for w2_inc in (SUM(WT * WT), WT * WT):
+                # deviations about the finished mean of this same function
+                num = Sum(WT * SUM((ROW - got_mean) ** 2), SEQ) / n_
+                w2 = Sum(w2_inc, SEQ) / n_
+                want_std = sp.sqrt(num / (1 - w2))
+                if equal(got_std, want_std):
+                    ok_std = True
+    if foreign and not (ok_mean and ok_std):
+        raise AnalysisError(f"{q}: the statistics are written with constructs this rule does not interpret ({foreign})")
+    if ok_mean:
+        ck.ok("C14.R2", q, "mean = sum_i w_i sum_j x_ij / n_realisations", detail=str(got_mean)[:160])
+    else:
+        ck.violation("C14.R2", q, "weighted mean", f"the mean returned is {got_mean}; expected {want_mean}", loc=f.loc())
+    if ok_std:
+        ck.ok("C14.R2", q, "stddev = sqrt( (sum_i w_i sum_j (x_ij - mean)^2 / n) / (1 - sum_i w_i^2) ), deviations about the finished mean")
         ck.ok("C14.R2", q, "accumulators start at 0 and are divided by the number of realisations")
-    else:
-        ck.violation("C14.R2", q, "accumulator scaling", f"initial values {inits}, post-scaling {post}; expected zeros and division by len(row)", loc=f.loc())
-    # mean is final before the second loop uses it
-    mdiv = [st for st in f.node.body if isinstance(st, ast.AugAssign) and unparse(st.target) == "mean"]
-    if mdiv and mdiv[0].lineno < loops[1].lineno and mdiv[0].lineno > loops[0].end_lineno:
-        ck.ok("C14.R2", q, "deviations are taken about the final weighted mean", nontrivial=False)
-    else:
-        ck.violation("C14.R2", q, "mean before deviations", "the deviations are not taken about the finished weighted mean", loc=f.loc())
-    sd = [st for st in f.node.body if isinstance(st, ast.Assign) and unparse(st.targets[0]) == "stddev"]
-    T3 = Translator()
-    if len(sd) == 1 and equal(T3.tr(sd[0].value), sp.sqrt(T3.sym("numerator") / (1 - T3.sym("w2")))):
-        ck.ok("C14.R2", q, norm_key(sd[0]), detail="sqrt(numerator / (1 - sum w^2))")
-    else:
-        ck.violation("C14.R2", q, "standard deviation", "stddev is not sqrt(numerator/(1 - w2))", loc=f.loc())
-    rets = [r for r in own_nodes(f.node) if isinstance(r, ast.Return)]
-    if len(rets) == 1 and unparse(rets[0].value) == "(mean, stddev)":
-        ck.ok("C14.R2", q, "returns (mean, stddev)", nontrivial=False)
-    else:
-        ck.violation("C14.R2", q, "return", "does not return (mean, stddev)", loc=f.loc())
+    elif ok_mean:
+        ck.violation("C14.R2", q, "standard deviation", f"stddev is {got_std}; expected sqrt(numerator/(1 - w2)) with deviations about the finished weighted mean", loc=f.loc())
+    ck.ok("C14.R2", q, "returns (mean, stddev)", nontrivial=False)
 
 
 def _montecarlo(ck: Checker, prog: Program):
